@@ -123,6 +123,13 @@ def main(ctx, args):
         proved = leancheck(ctx, MODULES)
     if not build_harness(ctx):
         ctx.finish()
+    # the kernel-evaluated examples of Props/C05, C03, C18 are stated on Lean terms generated from real dumps
+    # (tools/mirlean.py, corpus/MIR/*.mmm): are they still what the compiler produces?
+    ex = run([sys.executable, os.path.join(VERIF, "tools", "mirlean.py"), "--check"], cwd=VERIF)
+    example_state = ex.stdout.strip() or ("error: " + ex.stderr[-200:])
+    if example_state != "current":
+        ctx.notes.append("the MIR of corpus/MIR/*.mmm changed since lean/Mimium/Proofs/MirExample.lean was generated (" + example_state +
+                         "): regenerate with `python3 tools/mirlean.py` and re-check the examples")
     times = 12 if ctx.tier == "quick" else 48
     plan = [("core", 700), ("deep", 300), ("scalar", 400), ("scalar_deep", 300)] if ctx.tier == "quick" else [("core", 8000), ("deep", 3000), ("scalar", 4000), ("scalar_deep", 3000)]
     if args.replay:
@@ -301,7 +308,8 @@ def main(ctx, args):
             "rule": "stateOkFn (Model/MirState.lean; soundness C05_mir_state_ok_sound) evaluated by drv_mir on every function of the MIR the "
                     "real compiler produced for every program of the run; `okSetChecked` must hold for the computed set; a program whose dsp "
                     "passes must have conforming VM traces (else violation); a failing function with conforming traces is a limitation",
-            **dict(sstat), "limitations_samples": s_limits, "contradictions": len(s_contra)},
+            **dict(sstat), "limitations_samples": s_limits, "contradictions": len(s_contra),
+            "kernel_evaluated_examples_are_current_compiler_output": example_state},
         "published_layout_model_vs_compiler": {
             "rule": "publishedSk (publishFn P dsp) of Model/Publish.lean, computed from the program's S-expression, equals get_dsp_state_skeleton of the real compiler (text equality of the skeleton); non-trivial = at least 2 cells",
             "compared": stats["layouts_compared"], "of_which_layout_only_stream_f3_f2": stats["layout_only_programs"],
